@@ -413,14 +413,14 @@ def nm(rng, p):
     return rng.random() < p * getattr(rng, 'nz', 1.0)
 
 
-def gen_history(rng, thorough, decls):
+def gen_history(rng, thorough, decls, light=False):
     """the activity in ONE namespace, generated ONLINE as a coroutine: it yields an op (without 'ns')
     and is sent the real outcome, so that the generator knows which classes exist (keeps forests deep
     although many declarations are refused).  `drive` interleaves several of these."""
     env = Env()
     names = list(CLASS_NAMES)
     rng.shuffle(names)
-    n_classes = rng.randint(2, 9 if not thorough else 12)
+    n_classes = rng.randint(1, 4) if light else rng.randint(2, 9 if not thorough else 12)
     key = [0]
 
     def forget(ln):
@@ -681,7 +681,7 @@ def drive(rng, thorough, real, two=True):
             do({'op': 'addDecl', 'ns': spell_ns(rng, ns), 'd': d})
         if rng.random() < 0.3:
             do({'op': 'addDecl', 'ns': ns, 'd': dict(rng.choice(decls), n=rc(rng, decls[0]['n']))})   # duplicate
-        g = gen_history(rng, thorough and ns == NS, decls)
+        g = gen_history(rng, thorough, decls, light=(ns != NS))
         streams.append([ns, g, next(g)])
     tmp = False
     while streams:
@@ -966,17 +966,19 @@ def oracle(run, decls, ops, outs, final_names, final_insts, toklist, case):
     def known(n):
         return n is not None and n.lower() in sh.cls
 
+    declared = set()
+
     for op, out in zip(ops, outs):
         o = op['op']
         ok = 'ok' in out
-        if o in ('create', 'add', 'modify') and ok:
+        if o in ('create', 'add', 'modify', 'mofCreate') and ok:
             for e in op['c']['props'] + op['c']['meths']:
                 if e.get('org'):
                     run.count('client-set:class_origin ' + ('own-name' if e['org'].lower() == op['c']['n'].lower()
                                                              else 'other'))
                 if e.get('p') is not None:
                     run.count('client-set:propagated=%s' % e['p'])
-        if o in ('create', 'add') and ok:
+        if o in ('create', 'add', 'mofCreate') and ok:
             ln = op['c']['n'].lower()
             if ln in sh.cls:
                 run.violate({'kind': 'duplicate_class_accepted', 'op': o}, case, out)
@@ -1072,6 +1074,25 @@ def oracle(run, decls, ops, outs, final_names, final_insts, toklist, case):
                     if each.get(fcps(k['n']).lower()) != k:
                         run.violate({'kind': 'enumerateclasses_differs_from_getclass', 'ico': op['f']['ico'],
                                      'iq': op['f']['iq'], 'lo': op['f']['lo']}, case, {'class': fcps(k['n'])})
+        elif o == 'addDecl':
+            dn = op['d']['n'].lower()
+            if ok != (dn not in declared):
+                run.violate({'kind': 'qualifier_declaration_existence_wrong', 'ok': ok}, case, out)
+            if ok:
+                declared.add(dn)
+        elif o == 'isSub':
+            if known(op['k']):
+                kl, sl = op['k'].lower(), op['sup'].lower()
+                if kl == sl or sl in sh.ancestors(kl):
+                    exp = {'ok': {'flag': True}}
+                elif known(op['sup']):
+                    exp = {'ok': {'flag': False}}
+                else:
+                    exp = {'exc': 'KeyError'}
+                if out != exp:
+                    run.violate({'kind': 'is_subclass_wrong', 'expected': json.dumps(exp)}, case, out)
+            elif ok:
+                run.violate({'kind': 'is_subclass_of_unknown_class_answered'}, case, out)
         elif o == 'supers':
             if known(op['n']):
                 exp = list(reversed(sh.ancestors(op['n'].lower())))
@@ -1127,14 +1148,15 @@ def mof_case(seed):
     """one forest: built by CreateClass and by compile_mof_string; -> None (skipped) or result dict"""
     import pywbem_mock
     rng = random.Random(seed)
-    decls = gen_decls(rng)
-    ops, _ = gen_history(rng, False, Real(decls))
+    ops0, outs0 = drive(rng, False, Real(), two=False)
+    decls = [op['d'] for op, out in zip(ops0, outs0) if op['op'] == 'addDecl' and 'ok' in out]
+    ops = [op for op in ops0 if op['op'] in ('create', 'add', 'mofCreate')]
     # MOF text cannot carry flavors on qualifier instances, unspecified declaration flavors, or preset
     # propagated/class_origin: both builds get the declarations without them
     for d in decls:
         d['ts'] = True if d['ts'] is None else d['ts']
         d['ov'] = True if d['ov'] is None else d['ov']
-    creates = [json.loads(json.dumps(op)) for op in ops if op['op'] in ('create', 'add')]
+    creates = [json.loads(json.dumps(op)) for op in ops]
     for op in creates:
         c = op['c']
         for e in c['props'] + c['meths']:
@@ -1143,10 +1165,12 @@ def mof_case(seed):
             for q in holder.get('q', []):
                 for k in ('ts', 'ov', 'tr', 'p'):
                     q.pop(k, None)
-    real = Real(decls)
+    real = Real()
+    for d in decls:
+        real.step({'op': 'addDecl', 'ns': NS, 'd': d})
     accepted = []
     for op in creates:
-        if 'ok' in real.step({'op': 'create', 'c': op['c']}):
+        if 'ok' in real.step({'op': 'create', 'ns': NS, 'c': op['c']}):
             accepted.append(op['c'])
     if not accepted:
         return None
@@ -1209,21 +1233,96 @@ def unicode_probe(run):
 
 # --------------------------------------------------------------------------- run / search / replay
 
+def norm_ns(ns):
+    return ns.strip('/').lower()
+
+
+MUTATING = ('addDecl', 'create', 'add', 'mofCreate', 'addInst')
+
+
+def oracle_repo(run, ops, outs, final, toklist, case):
+    """the property on the real outputs of one repository history: namespace bookkeeping here, the
+    class-level property per namespace on the sub-history addressed to it (which also decides that
+    operations on one namespace never show in another)"""
+    exist = {norm_ns(NS)}
+    per = {norm_ns(NS): ([], [])}
+    nonempty = set()
+
+    def close(nns, fin):
+        o_, u_ = per.pop(nns)
+        decls = [op['d'] for op, out in zip(o_, u_) if op['op'] == 'addDecl' and 'ok' in out]
+        oracle(run, decls, o_, u_, fin['classes'] if fin else [], fin['insts'] if fin else [], toklist, case)
+
+    for op, out in zip(ops, outs):
+        nns = norm_ns(op['ns'])
+        ok = 'ok' in out
+        o = op['op']
+        if o == 'addNs':
+            if ok != (nns not in exist):
+                run.violate({'kind': 'add_namespace_wrong', 'existed': nns in exist}, case, out)
+            elif not ok and out.get('code') != 11:
+                run.violate({'kind': 'add_namespace_wrong_error', 'code': out.get('code'), 'exc': out['exc']}, case, out)
+            if ok and nns not in exist:
+                exist.add(nns)
+                per[nns] = ([], [])
+        elif o == 'removeNs':
+            if nns not in exist:
+                if ok or out.get('code') != 6:
+                    run.violate({'kind': 'remove_unknown_namespace', 'code': out.get('code')}, case, out)
+            elif nns in nonempty:
+                if ok or out.get('code') != 20:
+                    run.violate({'kind': 'remove_nonempty_namespace', 'code': out.get('code')}, case, out)
+            elif not per[nns][0] or all('ok' not in u for u in per[nns][1]):
+                if not ok:
+                    run.violate({'kind': 'remove_empty_namespace_refused', 'code': out.get('code')}, case, out)
+            if ok and nns in exist:
+                close(nns, None)
+                exist.discard(nns)
+        else:
+            if nns not in exist:
+                want = {'exc': 'KeyError'} if o in ('supers', 'isSub') else {'exc': 'CIMError', 'code': 3}
+                if out != want:
+                    run.violate({'kind': 'operation_on_missing_namespace', 'op': o, 'ok': ok}, case, out)
+                continue
+            if out.get('exc') == 'CIMError' and out.get('code') == 3:
+                run.violate({'kind': 'existing_namespace_refused', 'op': o}, case, out)
+            if ok and o in MUTATING:
+                nonempty.add(nns)
+            per[nns][0].append(op)
+            per[nns][1].append(out)
+    fin = {norm_ns(fcps(e['ns'])): e for e in final}
+    if set(fin) != exist:
+        run.violate({'kind': 'final_namespace_set_differs'}, case, {'expected': sorted(exist), 'got': sorted(fin)})
+    for nns in list(per):
+        close(nns, fin.get(nns))
+
+
 def _work(args):
     seed, thorough = args
     rng = random.Random(seed)
-    decls = gen_decls(rng)
-    real = Real(decls)
-    ops, outs = gen_history(rng, thorough, real)
+    real = Real()
+    ops, outs = drive(rng, thorough, real)
     wops = [wire_op(op, real.tok) for op in ops]
-    names, insts = real.final()
-    req = {'decls': [w_decl(d) for d in decls], 'ops': wops}
-    return decls, ops, req, outs, names, insts, [[k[0], k[1], v] for k, v in real.tok.m.items()]
+    req = {'default': cps(NS), 'ops': wops}
+    final = real.final()
+    toklist = [[k[0], k[1], v] for k, v in real.tok.m.items()]
+    # the oracle runs here, in the worker (it is the expensive part); the parent only merges
+    r = common.Run(PROP, 'quick', 0)
+    case = {'ops': ops}
+    oracle_repo(r, ops, outs, final, toklist, case)
+    seen = set()
+    for v in r.violations:
+        k = json.dumps(v['sig'], sort_keys=True, default=str)
+        if k in seen:
+            v['case'] = None
+            v['observed'] = None
+        seen.add(k)
+    return ops, req, [strip_aux(o) for o in outs], final, r.violations, r.distribution
 
 
-def judge(run, decls, ops, outs, names, insts, toklist):
-    case = {'decls': decls, 'ops': ops}
-    oracle(run, decls, ops, outs, names, insts, toklist, case)
+def judge(run, ops, outs, final, toklist):
+    case = {'ops': ops}
+    oracle_repo(run, ops, outs, final, toklist, case)
     return case
 
 
@@ -1240,12 +1339,12 @@ def _thin(run, keep=25):
 
 def run(run):
     rng = run.rng
-    n = 15000 if run.thorough else 2500
+    n = 12000 if run.thorough else 2000
     run.rule = ('seeded random histories on one namespace: 14 qualifier declarations (flavors of 6 of them drawn from '
                 '{True,False,None}^2), 2..9 (thorough ..12) classes in forests of depth<=5 / fan-out<=4 created by CreateClass or '
                 'add_cimobjects in accepted and non-accepted orders, overriding / new / renamed-override properties and methods, '
                 'qualifiers repeated with same/different values, client-set class_origin (own/other existing class/junk, whole-class clones) and propagated on submitted elements, names in inconsistent lexical case, ModifyClass, DeleteClass, '
-                'instances, interleaved GetClass (all flag combinations, property lists), EnumerateClassNames/Classes, '
+                'instances, interleaved GetClass; a second namespace with its own declarations and a lighter class activity interleaved op by op, namespace add/remove (existing, unknown, empty, non-empty), the same requests sent to a missing namespace, namespace names in varying case and with leading/trailing slashes; MOFWBEMConnection.CreateClass as a third way to create classes, is_subclass queries; interleaved GetClass (all flag combinations, property lists), EnumerateClassNames/Classes, '
                 '_get_superclass_names, EnumerateInstanceNames/Instances; near-miss stream: missing/foreign Override, type '
                 'changes, undeclared/ill-typed/ill-scoped qualifiers, unknown superclass, duplicates, references outside '
                 'associations. Non-trivial = at least one subclass with an overriding element was accepted; distinct = '
@@ -1253,35 +1352,43 @@ def run(run):
     run.assumptions += ['CIM names in generated inputs are ASCII (model lower-casing is ASCII; NocaseDict uses casefold, '
                         'the providers use lower(): identical on ASCII)',
                         'qualifier declarations carry all 8 scope keys (as the MOF compiler produces them)',
-                        'qualifier values other than strings are compared as opaque tokens (type, repr)']
+                        'qualifier values other than strings are compared as opaque tokens (type, repr)',
+                        'namespace names are not Interop namespace names (add_namespace takes another route once an Interop namespace exists)']
     seeds = [(rng.getrandbits(48), run.thorough) for _ in range(n)]
     BATCH = 2500        # bounded memory: generate+run, model, compare, judge, discard
     for b in range(0, n, BATCH):
         results = common.pmap(_work, seeds[b:b + BATCH], chunksize=16)
-        answers = common.run_driver(PROP, [r[2] for r in results])
-        for (decls, ops, req, outs, names, insts, toklist), ans in zip(results, answers):
-            case = {'decls': decls, 'ops': ops}
+        answers = common.run_driver(PROP, [r[1] for r in results])
+        for (ops, req, outs, final, viols, dist), ans in zip(results, answers):
+            case = {'ops': ops}
             nontrivial = False
             for op, out in zip(ops, outs):
                 run.count('op:%s:%s' % (op['op'], out.get('exc', 'ok') + str(out.get('code', ''))))
-                if op['op'] in ('create', 'add', 'modify') and 'ok' in out and op['c'].get('sup') and \
+                if op['op'] in ('create', 'add', 'modify', 'mofCreate') and 'ok' in out and op['c'].get('sup') and \
                         any(q['n'].lower() == 'override' for e in op['c']['props'] + op['c']['meths']
                             for q in e.get('q', [])):
                     nontrivial = True
-            run.count('classes-at-end:%d' % min(len(names), 9))
+            for e in final:
+                run.count('classes-at-end:%d' % min(len(e['classes']), 9))
+            run.count('namespaces-at-end:%d' % len(final))
             run.case(case, nontrivial=nontrivial)
-            real_outs = [strip_aux(o) for o in outs]
-            if ans.get('outs') != real_outs or ans.get('classes') != names or ans.get('insts') != insts:
+            real_outs = outs
+            if ans.get('outs') != real_outs or ans.get('nss') != final:
                 idx = next((i for i, (a, b_) in enumerate(zip(ans.get('outs', []), real_outs)) if a != b_), None)
                 if len(run.disagreements) < 20:
                     run.disagree(case, {'first_diff_op': idx,
                                         'out': ans.get('outs', [None])[idx] if idx is not None else None,
-                                        'classes': ans.get('classes')},
-                                 {'out': real_outs[idx] if idx is not None else None, 'classes': names},
-                                 'class-resolution history')
+                                        'nss': ans.get('nss')},
+                                 {'out': real_outs[idx] if idx is not None else None, 'nss': final},
+                                 'repository history')
                 else:
-                    run.disagreements.append({'what': 'class-resolution history (details dropped)'})
-            oracle(run, decls, ops, outs, names, insts, toklist, case)
+                    run.disagreements.append({'what': 'repository history (details dropped)'})
+            for v in viols:
+                if v['case'] is not None:
+                    v['case'] = case
+                run.violations.append(v)
+            for k, n_ in dist.items():
+                run.count(k, n_)
         del results, answers
         _thin(run)
     unicode_probe(run)
@@ -1323,8 +1430,11 @@ def search(run):
     rng = run.rng
     for batch in range(6):
         res = common.pmap(_work, [(rng.getrandbits(48), True) for _ in range(700)], chunksize=16)
-        for decls, ops, req, outs, names, insts, toklist in res:
-            judge(run, decls, ops, outs, names, insts, toklist)
+        for ops, req, outs, final, viols, dist in res:
+            for v in viols:
+                if v['case'] is not None:
+                    v['case'] = {'ops': ops}
+                run.violations.append(v)
         new = [v for v in run.violations[before:] if not any(common.matches(f, PROP, v['sig']) for f in known)]
         if new:
             return new
@@ -1344,8 +1454,8 @@ def replay(payload):
         res = mof_case(case['mof_seed'])
         bad = bool(res and res.get('diffs'))
         return (not bad), 'MOF-built vs CreateClass-built classes: ' + json.dumps(res and res.get('diffs'))
-    req, outs, names, insts, toklist = execute(case['decls'], case['ops'])
-    oracle(r, case['decls'], case['ops'], outs, names, insts, toklist, dict(case))
+    req, outs, final, toklist = execute(case['ops'])
+    oracle_repo(r, case['ops'], outs, final, toklist, dict(case))
     want = payload.get('sig')
     known = common.load_known_all()
     hits = [v for v in r.violations if want is not None and v['sig'] == want] or \
